@@ -374,6 +374,15 @@ def to_coq(lines):
 # ---------------------------------------------------------------------------
 
 FIXED = [
+    # exactly 32 open loops (the cap), then FOR lines are re-entered: the innermost (line 320) and the outermost (line 10);
+    # re-entering a FOR forgets the old loop of that variable first, so neither overflows (missed seeded change C03-mut9:
+    # the capacity test was moved in front of the forgetting)
+    [[10 * k, [("for", "L%d" % k, ("num", "1"), ("num", "2"), None)]] for k in range(1, 33)] +
+    [[330, [("let", "C", [], ("bin", "+", ("var", "C"), ("num", "1")))]],
+     [335, [("if", ("bin", "<", ("var", "C"), ("num", "3")), ("stmt", ("goto", 320)), None)]],
+     [340, [("let", "C", [], ("bin", "+", ("var", "C"), ("num", "10")))]],
+     [345, [("if", ("bin", "<", ("var", "C"), ("num", "25")), ("stmt", ("goto", 10)), None)]],
+     [350, [("print", [("e", ("var", "C"))]), ("end",)]]],
     # the manual's nested-loop example: NEXT I forgets the J loop
     [[10, [("for", "I", ("num", "1"), ("num", "2"), None)]], [20, [("for", "J", ("num", "1"), ("num", "2"), None)]],
      [30, [("print", [("e", ("var", "I")), (";",), ("e", ("var", "J"))])]], [40, [("next", "I")]], [50, [("next", "J")]]],
